@@ -55,11 +55,16 @@ func NewServer() *Server {
 
 // reinitCLI replaces the CLI client. The client pointer is shared with request
 // handlers and is replaced from the configuration goroutine, so it is guarded
-// by settingsMu like the settings it is derived from.
+// by settingsMu like the settings it is derived from. The client is built
+// outside the lock (it probes the executable); it is installed only if the
+// stored settings still ask for it, so that of two overlapping refreshes the
+// one whose settings were stored last also provides the client.
 func (s *Server) reinitCLI(cfg cliSettings) {
 	client := cli.NewClient(cfg.Path, cfg.Timeout)
 	s.settingsMu.Lock()
-	s.cliClient = client
+	if s.settings.CLI.Path == cfg.Path && s.settings.CLI.Timeout == cfg.Timeout {
+		s.cliClient = client
+	}
 	s.settingsMu.Unlock()
 }
 
